@@ -39,25 +39,29 @@ def _get_leaf_tensors(tensors: Iterable[Tensor], excluded: Iterable[Tensor]) -> 
         raise ValueError("All `excluded` tensors should have a `grad_fn`.")
 
     accumulate_grads = _get_descendant_accumulate_grads(
-        roots={tensor.grad_fn for tensor in tensors},
-        excluded_nodes={tensor.grad_fn for tensor in excluded},
+        roots={(tensor.grad_fn, tensor.output_nr) for tensor in tensors},
+        excluded_edges={(tensor.grad_fn, tensor.output_nr) for tensor in excluded},
     )
     leaves = {g.variable for g in accumulate_grads}
 
     return leaves
 
 
-def _get_descendant_accumulate_grads(roots: set[Node], excluded_nodes: set[Node]) -> set[Node]:
+def _get_descendant_accumulate_grads(
+    roots: set[tuple[Node, int]], excluded_edges: set[tuple[Node, int]]
+) -> set[Node]:
     """
     Gets the AccumulateGrad descendants of the specified nodes.
 
-    :param roots: Root nodes from which the graph traversal should start.
-    :param excluded_nodes: Nodes excluded from the graph traversal.
+    :param roots: Root edges (node, output index) from which the graph traversal should start.
+    :param excluded_edges: Edges (node, output index) excluded from the graph traversal. An edge
+        corresponds to a tensor: a node producing several tensors (e.g. ``unbind``) is only
+        excluded through the outputs that are actually excluded.
     """
 
-    excluded_nodes = set(excluded_nodes)  # Re-instantiate set to avoid modifying input
     result = set()
-    nodes_to_traverse = deque(roots - excluded_nodes)
+    visited = {node for node, index in roots if (node, index) not in excluded_edges}
+    nodes_to_traverse = deque(visited)
 
     # This implementation more or less follows what is advised in
     # https://discuss.pytorch.org/t/autograd-graph-traversal/213658 and what was suggested in
@@ -68,9 +72,9 @@ def _get_descendant_accumulate_grads(roots: set[Node], excluded_nodes: set[Node]
         if node.__class__.__name__ == "AccumulateGrad":
             result.add(node)
 
-        for child, _ in node.next_functions:
-            if child is not None and child not in excluded_nodes:
+        for child, index in node.next_functions:
+            if child is not None and child not in visited and (child, index) not in excluded_edges:
                 nodes_to_traverse.append(child)  # Append to the right
-                excluded_nodes.add(child)
+                visited.add(child)
 
     return result
